@@ -916,6 +916,30 @@ func (e *CEnv) call(n *ECall) Val {
 				was = c.Store(was, v.Tm, c.Select(cur, v.Tm))
 			}
 			return Val{T: tBool, Tm: c.Eq(cur, was)}
+		case "operand": // operand(i): operand i of the statement a cut is attached to (the slice in `switch len(s)`, ...):
+			// lets a stepping stone talk about "the value this statement looks at" without naming a local variable
+			if e.atInstr == nil {
+				e.fail("operand() is only available in cut clauses")
+			}
+			iv, okc := n.Args[0].(*EInt)
+			if !okc {
+				e.fail("operand(i) needs a literal index")
+			}
+			k, _ := strconv.Atoi(iv.V)
+			var ops []ssa.Value
+			if call, isCall := e.atInstr.(*ssa.Call); isCall {
+				ops = call.Call.Args
+			} else {
+				for _, op := range e.atInstr.Operands(nil) {
+					if op != nil && *op != nil {
+						ops = append(ops, *op)
+					}
+				}
+			}
+			if k < 0 || k >= len(ops) {
+				e.fail("operand(%d): the statement has %d operands", k, len(ops))
+			}
+			return e.ex.val(e.fr, ops[k])
 		case "trow": // trow(), tcol(): the terminal's cursor (1-based) after the bytes written so far
 			return Val{T: tInt, Tm: e.ex.heapGet(e.st, e.ex.trowKey())}
 		case "tcol":
